@@ -110,6 +110,49 @@ def libnames_schema():
     return S.Schema("libnames", types=types, messages=[S.Message("M", 1, fields=fields, groups=[grp])], name="libnames")
 
 
+def signed_headers_schema():
+    """sbeppc does not insist on unsigned level-header members: signed integers and `char` are accepted for blockLength,
+    numInGroup, the <data> length, templateId/schemaId/version and the counters.  Outside the value domain of the other
+    checks (DESIGN 2.2), but "every accepted schema compiles and every accessor instantiates" covers it: the touch TU
+    instantiates size_bytes, operator[], iteration, fill_*_header, resize for flat and nested groups of every signed
+    dimension pair (added after seeded change C07-5: a braced size_t conversion of a signed header value is a narrowing
+    error under clang only)."""
+    types = [S.Composite("messageHeader", [S.Type("blockLength", "int16"), S.Type("templateId", "int32"), S.Type("schemaId", "int8"),
+                                           S.Type("version", "int64"), S.Type("numGroups", "int8"), S.Type("numVarDataFields", "char")])]
+    sig = ["int8", "int16", "int32", "int64", "char"]
+    dims, vds = [], []
+    for i, n in enumerate(sig):
+        for j, b in enumerate(sig + ["uint16"]):
+            if (i + j) % 2 == 0 or b == "uint16":
+                nm = "sd_%s_%s" % (n, b)
+                types.append(S.Composite(nm, [S.Type("blockLength", b), S.Type("numInGroup", n)]))
+                dims.append(nm)
+    for l in sig[:4]:
+        nm = "sv_%s" % l
+        types.append(S.Composite(nm, [S.Type("length", l), S.Type("varData", "char", length=0)]))
+        vds.append(nm)
+    types.append(S.Composite("sd_u16_i8", [S.Type("blockLength", "int8"), S.Type("numInGroup", "uint16")]))
+    dims.append("sd_u16_i8")
+    msgs = []
+    nid = 1
+    for k in range(0, len(dims), 4):
+        groups = []
+        for j, d in enumerate(dims[k:k + 4]):
+            nid += 3
+            if j % 2 == 0:
+                groups.append(S.Group("f_" + d, nid, fields=[S.Field("x", nid + 1, "uint16"), S.Field("y", nid + 2, "int8")], dimension_type=d))
+            else:
+                groups.append(S.Group("n_" + d, nid, fields=[S.Field("x", nid + 1, "uint8")], dimension_type=d,
+                                      groups=[S.Group("in", nid + 2, fields=[S.Field("z", nid + 3, "int8")], dimension_type=dims[(k + j + 3) % len(dims)])],
+                                      data=[S.Data("dd", nid + 4, vds[(k + j) % len(vds)])]))
+                nid += 3
+        msgs.append(S.Message("SM%d" % (k // 4), 1 + k // 4, fields=[S.Field("f", nid + 5, "uint32")], groups=groups,
+                              data=[S.Data("md", nid + 6, vds[(k // 4) % len(vds)])]))
+        nid += 8
+    s = S.Schema("signedhdrs", id=5, version=1, types=types, messages=msgs, name="signedhdrs", description="signed level headers")
+    return s
+
+
 GROUP_BASE_MEMBERS = ["value_type", "reference", "sbe_size_type", "size_type", "difference_type", "iterator", "sbe_size", "size",
                       "resize", "empty", "max_size", "begin", "end", "front", "back", "clear", "cursor_range_t", "cursor_range",
                       "cursor_subrange", "cursor_iterator", "cursor_begin", "cursor_end"]
@@ -258,7 +301,7 @@ def main():
     quick = rep.tier == "quick"
     schemas = S.corpus() + S.random_schemas(rep.seed, 3 if quick else 60) + S.clash_schemas(rep.seed, 6 if quick else 60)
     schemas += [hostile_text_schema(), float_literal_schema(), oddities_schema(),
-                libnames_schema(), sole_dependency_schema(), path_concat_schema(), S.self_clash_schema()] + group_libnames_schemas() + \
+                libnames_schema(), sole_dependency_schema(), path_concat_schema(), S.self_clash_schema(), signed_headers_schema()] + group_libnames_schemas() + \
         S.pair_clash_schemas()
     sparse = S.pair_clash_schemas(sparse=True)
     if quick:
